@@ -67,10 +67,93 @@ func (c Case) quals() (tq, idq string) {
 		return "q.", "q."
 	case c.Q.Qualify:
 		return "t.", "t."
+	case c.Q.Join && c.UCol != nil:
+		return "t.", "t." // s exists in both tables
 	case c.Q.Join:
 		return "", "t." // id exists in both tables
 	}
 	return "", ""
+}
+
+// uq is the qualifier of the joined table's columns.
+func (c Case) uq() string {
+	if c.Q.UAlias {
+		return "v."
+	}
+	return "u."
+}
+
+// sCol is the column a searchable comparison is written on; search tells whether that column is searchable.
+func (c Case) sCol(k Cond) (name string, search bool) {
+	if k.Tab == "u" {
+		return c.uq() + "s", c.uSearch()
+	}
+	tq, _ := c.quals()
+	return tq + "s", true
+}
+
+// fromClause renders FROM t [AS q] [JOIN u [AS v] ON ... [AND cond]].
+func (c Case) fromClause(cond func(Cond) string) string {
+	_, idq := c.quals()
+	var b strings.Builder
+	b.WriteString(" FROM t")
+	if c.Q.Alias {
+		b.WriteString(" AS q")
+	}
+	if c.Q.Join && c.Q.Comma {
+		// table list: the join condition (and what would stand in ON) leads the WHERE clause
+		b.WriteString(", u")
+		if c.Q.UAlias {
+			b.WriteString(" AS v")
+		}
+		b.WriteString(" WHERE ")
+		if c.Q.OnFlip {
+			fmt.Fprintf(&b, "%sref = %sid", c.uq(), idq)
+		} else {
+			fmt.Fprintf(&b, "%sid = %sref", idq, c.uq())
+		}
+		if c.Q.On != nil {
+			b.WriteString(" AND " + cond(*c.Q.On))
+		}
+		b.WriteString(" AND ")
+		return b.String()
+	}
+	if c.Q.Join {
+		b.WriteString(" JOIN u")
+		if c.Q.UAlias {
+			b.WriteString(" AS v")
+		}
+		if c.Q.OnFlip {
+			fmt.Fprintf(&b, " ON %sref = %sid", c.uq(), idq)
+		} else {
+			fmt.Fprintf(&b, " ON %sid = %sref", idq, c.uq())
+		}
+		if c.Q.On != nil {
+			b.WriteString(" AND " + cond(*c.Q.On))
+		}
+	}
+	return b.String()
+}
+
+func tOwnerName(c Case) []byte {
+	if c.Col.ClientID != "" {
+		return []byte(c.Col.ClientID)
+	}
+	return []byte("alice")
+}
+
+func uOwnerOf(c Case) []byte {
+	if c.UCol != nil && c.UCol.ClientID != "" {
+		return []byte(c.UCol.ClientID)
+	}
+	return []byte("alice")
+}
+
+func uEnvelopeKind(c Case) string {
+	if c.UCol != nil && c.UCol.Envelope == "acrastruct" {
+		return fix.KindStruct
+	}
+	return fix.KindBlock
 }
 
 func renderPG(c Case) rendered {
@@ -89,15 +172,16 @@ func renderPG(c Case) rendered {
 		switch k.K {
 		case "s":
 			var val string
+			scol, search := c.sCol(k)
 			switch k.Form {
 			case "cast":
 				val = pgprog.Literal(k.Val, lt, k.Spell, true)
 			case "ptext":
-				val = param(k.Val, lt, 0, true)
+				val = param(k.Val, lt, 0, search)
 			case "pbin":
-				val = param(k.Val, lt, 1, true)
+				val = param(k.Val, lt, 1, search)
 			case "pcast":
-				val = param(k.Val, lt, 0, true)
+				val = param(k.Val, lt, 0, search)
 				if lt == pgsess.Text {
 					val += "::text"
 				} else {
@@ -114,9 +198,9 @@ func renderPG(c Case) rendered {
 				}
 			}
 			if k.Flip {
-				return val + " " + op + " " + tq + "s"
+				return val + " " + op + " " + scol
 			}
-			return tq + "s " + op + " " + val
+			return scol + " " + op + " " + val
 		case "plain":
 			col, t := tq+k.Col, pgsess.Text
 			switch k.Col {
@@ -125,7 +209,7 @@ func renderPG(c Case) rendered {
 			case "n":
 				t = pgsess.Int4
 			case "tag":
-				col = "u.tag"
+				col = c.uq() + "tag"
 			}
 			var val string
 			switch {
@@ -139,6 +223,15 @@ func renderPG(c Case) rendered {
 				val = "'" + k.Arg + "'"
 			}
 			return col + " " + k.Op + " " + val
+		case "ss":
+			op := "="
+			if k.Neg {
+				op = "<>"
+			}
+			if k.Flip {
+				return c.uq() + "s " + op + " " + tq + "s"
+			}
+			return tq + "s " + op + " " + c.uq() + "s"
 		case "not":
 			return "NOT (" + cond(k.Kids[0]) + ")"
 		}
@@ -149,18 +242,22 @@ func renderPG(c Case) rendered {
 		return "(" + strings.Join(parts, " "+strings.ToUpper(k.K)+" ") + ")"
 	}
 	var b strings.Builder
+	if c.Q.Sub && !c.Q.Join && !c.Q.Alias {
+		fmt.Fprintf(&b, "SELECT id, s FROM t WHERE id IN (SELECT %sid FROM t WHERE %s)", idq, cond(c.Q.Where))
+		r.SQL = b.String()
+		return r
+	}
 	fmt.Fprintf(&b, "SELECT %sid, %ss", idq, tq)
 	if c.Q.Join {
-		b.WriteString(", u.tag")
+		b.WriteString(", " + c.uq() + "tag")
 	}
-	b.WriteString(" FROM t")
-	if c.Q.Alias {
-		b.WriteString(" AS q")
+	// the ON clause comes first in the text: its placeholders are numbered first
+	b.WriteString(c.fromClause(cond))
+	if c.Q.Join && c.Q.Comma {
+		b.WriteString("(" + cond(c.Q.Where) + ")")
+	} else {
+		b.WriteString(" WHERE " + cond(c.Q.Where))
 	}
-	if c.Q.Join {
-		fmt.Fprintf(&b, " JOIN u ON %sid = u.ref", idq)
-	}
-	b.WriteString(" WHERE " + cond(c.Q.Where))
 	r.SQL = b.String()
 	return r
 }
@@ -203,7 +300,33 @@ func storedRows(c Case, w *fix.World, vs *hx.Vs) (trows, urows [][]pgsess.Value,
 		trows = append(trows, []pgsess.Value{{B: []byte(strconv.Itoa(i + 1))}, sv, {B: []byte(r.P)}, {B: []byte(strconv.Itoa(r.N))}})
 	}
 	for i, u := range c.U {
-		urows = append(urows, []pgsess.Value{{B: []byte(strconv.Itoa(i + 1))}, {B: []byte(strconv.Itoa(u.Ref))}, {B: []byte(u.Tag)}})
+		row := []pgsess.Value{{B: []byte(strconv.Itoa(i + 1))}, {B: []byte(strconv.Itoa(u.Ref))}, {B: []byte(u.Tag)}}
+		if c.UCol != nil {
+			sv := pgsess.Value{Null: true}
+			if u.S != nil {
+				sv = pgsess.Value{Null: u.S.Null, B: u.S.B}
+			}
+			if c.uSearch() && !sv.Null && len(sv.B) > 0 {
+				// written through a write entry point for the column's own key owner and envelope
+				name := u.W
+				if name == "" {
+					name = "writeChain"
+				}
+				wr := writerByName(name, uEnvelopeKind(c))
+				if wr == nil {
+					vs.Add("harness:writer", "unknown writer %q", u.W)
+					return nil, nil, false
+				}
+				out, err := wr.F(w, uOwnerOf(c), append([]byte(nil), sv.B...), uEnvelopeKind(c))
+				if err != nil {
+					vs.Add("write-error:"+wr.Name, "%s failed for a %d-byte plaintext: %v", wr.Name, len(sv.B), err)
+					return nil, nil, false
+				}
+				sv.B = out
+			}
+			row = append(row, sv)
+		}
+		urows = append(urows, row)
 	}
 	return trows, urows, true
 }
@@ -212,6 +335,11 @@ func storedRows(c Case, w *fix.World, vs *hx.Vs) (trows, urows [][]pgsess.Value,
 func CheckRewritePG(c Case) (vs hx.Vs) {
 	sqlparser.SetDefaultDialect(pgdialect.NewPostgreSQLDialect())
 	w := fix.TheWorld()
+	c, rerr := resolve(c)
+	if rerr != nil {
+		vs.Add("harness:resolve", "%v", rerr)
+		return
+	}
 	tabs := tables(c)
 	schema, err := config.MapTableSchemaStoreFromConfig([]byte(pgprog.SchemaYAML(tabs)), false)
 	if err != nil {
@@ -335,11 +463,12 @@ func CheckRewritePG(c Case) (vs hx.Vs) {
 
 func TestRewritePG(t *testing.T) {
 	R.Rule("TestRewritePG", "searchable column configuration (envelope x declared type x failure policy x explicit/implicit client, from the combinations the real loader accepts) + 1-12 stored plaintexts (pool with duplicates, prefixes/extensions of one another, empty, long, NULL, quotes/backslashes) written through a write entry point (SearchableEncryptor, write chain, client-side envelope, translator, library) + SELECT id, s FROM t [AS q] [JOIN u ON ..] WHERE cond; cond from {col op value, value op col} x {=, <>, !=} x {literal spellings, cast, $n text, $n binary} combined with AND/OR/NOT and predicates on plain columns (literal or placeholder). The statement goes through HashQuery.OnQuery (+OnBind on the emitted statement); the emitted statement is executed literally by the typed fake database over the stored values. Oracle: multiset of selected ids = model (three-valued logic over plaintexts); no plaintext marker in the emitted statement/parameters. Non-trivial = a searched value is present AND some row is excluded")
-	hx.Checks(100, 6000)
+	hx.Checks(500, 6000)
 	rapid.Check(t, func(rt *rapid.T) {
 		c := genCase(rt, genOpts{})
 		vs := CheckRewritePG(c)
-		R.Seen("TestRewritePG", c, nontrivial(c), classesOf(c, "pg")...)
+		rc, _ := resolve(c)
+		R.Seen("TestRewritePG", c, nontrivial(rc), classesOf(rc, "pg")...)
 		R.Report(rt, "TestRewritePG", c, vs)
 	})
 }
